@@ -2,7 +2,8 @@
    Proofs/JsonFacts.v (text form = specification Spec/TextOf.v), Proofs/InterpFacts.v (what is
    converted to text is closed, i.e. fully rendered).  The extracted specification text_of is
    also applied to the implementation's own rendered target on every run. *)
-From RV Require Import Model.Interp Spec.TextOf Proofs.WfFacts Proofs.InterpFacts Proofs.JsonFacts Proofs.ParserShape Proofs.TemplateRender.
+From RV Require Import Model.Interp Spec.TextOf Proofs.WfFacts Proofs.InterpFacts Proofs.JsonFacts Proofs.ParserShape Proofs.TemplateRender
+     Proofs.ParserGen Proofs.ParserFull Proofs.ParserAny Proofs.TemplateAny.
 
 (** The text form of a rendered value is the specified one: strings as-is, numbers in decimal,
     True/False/None, mappings and lists as compact JSON with byte-wise sorted keys in which
@@ -79,6 +80,53 @@ Proof.
   cbn zeta. split; [reflexivity|]. split; [cbn; repeat split; repeat constructor; cbn; intuition discriminate|].
   split; [repeat constructor|]. split; [exact I|].
   repeat constructor; cbn [piece_spec]; eexists; eexists; split; vm_compute; reflexivity.
+Qed.
+
+(** The same for strings of arbitrary text (Proofs/ParserAny.v, TemplateAny.v): texts of any characters
+    (lone dollars, backslashes, braces: JSON-like templates), escaped markers, and references whose
+    paths may themselves hold references or escapes.  The string renders to the concatenation, in
+    order, of the texts as they stand, of the marker texts the escapes stand for, and of the
+    specified text forms of what the references render to as whole values. *)
+Theorem C05_arbitrary_template_renders_to_the_concatenation_of_piece_texts :
+  forall root, wf (VMap root) -> forall d f st u us texts,
+    d <= MAX_REF_NESTING -> hunits_ok d (u :: us) -> has_marker (hstr (u :: us)) = true ->
+    (exists t1 t2 r, coalesce (htok u, map htok us) = t1 :: t2 :: r) ->
+    Forall2 (upiece_spec root f st) (u :: us) texts ->
+    exists F, forall f', F <= f' ->
+      interp f' root (VStr (hstr (u :: us))) st = Ok (VLit (sconcat texts), st).
+Proof. exact any_template_renders_as_specified_text. Qed.
+Eval cbv in "ASSUMPTIONS-OF C05_arbitrary_template_renders_to_the_concatenation_of_piece_texts"%string. Print Assumptions C05_arbitrary_template_renders_to_the_concatenation_of_piece_texts.
+
+(** Non-vacuity: a JSON-like template with a lone dollar, backslash and braces, an escaped marker
+    and a reference to a list. *)
+Example C05_arbitrary_template_premises_hold :
+  let root := [ mk_entry (VStr "x") (VSeq [VNum (NInt 5); VStr "${y}"]) false false;
+                mk_entry (VStr "y") (VBool false) false false ] in
+  let us := [HText "{" """a"": "; HRef [GLit "x" "x"]; HText "," " ""$"": ""\ }{ "; HOpen; HText "n" "ot}""}"] in
+  hstr us = ("{""a"": ${x}, ""$"": ""\ }{ " ++ bs ++ "${not}""}")%string /\
+  wf (VMap root) /\ hunits_ok 0 us /\ has_marker (hstr us) = true /\
+  Forall2 (upiece_spec root 60 st0) us ["{""a"": "; "[5,false]"; ", ""$"": ""\ }{ "; "${"; "not}""}"]%string /\
+  exists F, forall f', F <= f' ->
+    interp f' root (VStr (hstr us)) st0 = Ok (VLit "{""a"": [5,false], ""$"": ""\ }{ ${not}""}", st0).
+Proof.
+  cbn zeta.
+  set (root := [ mk_entry (VStr "x") (VSeq [VNum (NInt 5); VStr "${y}"]) false false;
+                 mk_entry (VStr "y") (VBool false) false false ]).
+  set (us := [HText "{" """a"": "; HRef [GLit "x" "x"]; HText "," " ""$"": ""\ }{ "; HOpen; HText "n" "ot}""}"]).
+  assert (Hw : wf (VMap root)).
+  { cbn; repeat split; repeat constructor; cbn; intuition discriminate. }
+  assert (Hx : gwf 1 (GRef [GLit "x" "x"])).
+  { cbn [gwf]. split; [discriminate | split; [exact I | constructor; [exact (plain_text_is_one_piece "x" "" (conj eq_refl I)) | constructor]]]. }
+  assert (Hok : hunits_ok 0 us).
+  { unfold hunits_ok, us. cbn [hunits_ok_t hok]. split; [repeat split; reflexivity|]. split; [exact Hx|].
+    split; [repeat split; reflexivity|]. split; [exact I|]. split; [repeat split; reflexivity | exact I]. }
+  assert (Hp : Forall2 (upiece_spec root 60 st0) us ["{""a"": "; "[5,false]"; ", ""$"": ""\ }{ "; "${"; "not}""}"]%string).
+  { unfold us. repeat constructor; cbn [upiece_spec upiece]; try reflexivity. eexists. eexists. split; vm_compute; reflexivity. }
+  split; [reflexivity|]. split; [exact Hw|]. split; [exact Hok|]. split; [reflexivity|]. split; [exact Hp|].
+  assert (Hd : 0 <= MAX_REF_NESTING) by (unfold MAX_REF_NESTING; lia).
+  assert (Hc : exists t1 t2 r, coalesce (htok (HText "{" """a"": "), map htok (tl us)) = t1 :: t2 :: r)
+    by (eexists; eexists; eexists; reflexivity).
+  exact (any_template_renders_as_specified_text root Hw 0 60 st0 _ _ _ Hd Hok eq_refl Hc Hp).
 Qed.
 
 (** Non-vacuity: the property's examples evaluated on the model. *)
